@@ -390,8 +390,11 @@ class Check:
             "wall_s": round(wall, 2),
             "violations": len(self.violations) + (1 if (self.broken and not self.violations) else 0),
         }
-        os.makedirs(os.path.join(VERIF, "evidence"), exist_ok=True)
-        with open(os.path.join(VERIF, "evidence", f"{self.pid}.json"), "w") as f:
+        # CV_EVIDENCE_DIR: used only by tools/run_seeded.py so that runs against a deliberately broken tree
+        # do not overwrite the evidence of the real tree
+        evdir = os.environ.get("CV_EVIDENCE_DIR") or os.path.join(VERIF, "evidence")
+        os.makedirs(evdir, exist_ok=True)
+        with open(os.path.join(evdir, f"{self.pid}.json"), "w") as f:
             json.dump(ev, f, indent=1, default=str)
         for ln in lines:
             print(ln)
